@@ -101,6 +101,19 @@ claim('C05',
       'fixed to 1 in quick, symbolic in thorough.',
       'DESIGN.md 3/C05, 2.1')
 
+claim('C14',
+      'Bounded symbolic verification of purity by uninterpreted abstraction: the real VacancyMediated.Lij runs on fully symbolic '
+      'inputs in call sequences (same input twice with in-place edits of every returned array by arbitrary symbolic amounts; another '
+      'symbolic input in between; cache cleared in between; edit + clear), both omega2 algorithms; LAPACK, exp, sqrt and the '
+      'Green-function calculator are memoised uninterpreted functions, the real cache-key hash/equality run on the symbolic arrays; '
+      'every later answer is compared term-wise with the first by z3, so hidden state, aliasing with caller-visible arrays or a '
+      'stale cache is a satisfiable difference.',
+      'Decides data-flow purity, not numerical values. GF calculator modelled as an environment (function of the rates; fresh arrays '
+      'per SetRates; Diffusivity()/biascorrection() return stored arrays as the real one does). Raw-bytes hashing modelled as equal '
+      'iff all numbers equal. Calculators enumerated (square, SC quick; + rect-2-site, square Nthermo=2 thorough); <=4 calls. '
+      'Reload histories are in C13. One defect found and fixed (L0vv aliasing).',
+      'DESIGN.md 3/C14, 2.3')
+
 na('C01', 'exact oracle is an infinite-state pair Markov chain reached through Brillouin-zone quadrature, LAPACK and hyp1f1/expi; '
           'agreement only to integration accuracy: no algebraic statement a solver can decide (DESIGN 5)')
 na('C06', 'identities hold only for the true lattice Green function of the omega0 network (numerical k-space integration); '
